@@ -1,6 +1,6 @@
 (* C09: the per-operation preservation lemmas combined, and the lift to whole graphs. *)
 From CC Require Import Base.Prelude Base.Scalar Base.Ty Base.Shape Graph.Value Graph.IR Graph.Eval
-  Graph.Typing Proofs.EvalProofs Proofs.TypingBase Proofs.TypingTuple Proofs.TypingArith.
+  Graph.Typing Proofs.EvalProofs Proofs.TypingBase Proofs.TypingTuple Proofs.TypingArith Proofs.TypingBits Proofs.TypingReduce.
 
 (* operations for which preservation is a theorem *)
 Definition proved_op (o : op) : bool :=
@@ -8,29 +8,21 @@ Definition proved_op (o : op) : bool :=
   | OZeros _ | OOnes _ | OConstant _ _ | ONOP
   | OCreateTuple | OCreateNamedTuple _ | OCreateVector _ | OTupleGet _ | ONamedTupleGet _
   | OVectorGet | ORepeat _
-  | OAdd | OSubtract | OMultiply | OMixedMultiply | OTruncate _ => true
+  | OAdd | OSubtract | OMultiply | OMixedMultiply | OTruncate _
+  | OA2B | OB2A _ | OSum _ | OCumSum _ => true
   | _ => false
   end.
 
 Theorem preservation_partial : forall o, proved_op o = true -> preserves o.
 Proof.
-  intros o H. destruct o; try discriminate H.
-  - apply preserves_zeros.
-  - apply preserves_ones.
-  - apply preserves_add.
-  - apply preserves_subtract.
-  - apply preserves_multiply.
-  - apply preserves_mixed_multiply.
-  - apply preserves_truncate.
-  - apply preserves_nop.
-  - apply preserves_constant.
-  - apply preserves_create_tuple.
-  - apply preserves_create_named_tuple.
-  - apply preserves_create_vector.
-  - apply preserves_tuple_get.
-  - apply preserves_named_tuple_get.
-  - apply preserves_vector_get.
-  - apply preserves_repeat.
+  intros o H. destruct o; try discriminate H;
+    first [ apply preserves_zeros | apply preserves_ones | apply preserves_constant | apply preserves_nop
+          | apply preserves_create_tuple | apply preserves_create_named_tuple
+          | apply preserves_create_vector | apply preserves_tuple_get | apply preserves_named_tuple_get
+          | apply preserves_vector_get | apply preserves_repeat
+          | apply preserves_add | apply preserves_subtract | apply preserves_multiply
+          | apply preserves_mixed_multiply | apply preserves_truncate
+          | apply preserves_a2b | apply preserves_b2a | apply preserves_sum | apply preserves_cum_sum ].
 Qed.
 
 (* ------------------------------------------------------------------ graphs *)
